@@ -47,7 +47,7 @@ def cases(tier):
                 sp = ["I"] * d
                 if setup == "periodic":
                     # equal end cells on the periodic axis (unequal ends are C03's recorded finding)
-                    pax = next((ax for ax in range(d) if U.periodic_ok(U.AXES[cls][ax])), None)
+                    pax = U.periodic_axis(cls, shape, 1)
                     if pax is not None:
                         sp[pax] = "U"
                 s = U.spec(cls, shape, tuple(sp), 1)
